@@ -1371,7 +1371,7 @@ class PolyhedralTermList(TermList):  # noqa: WPS338
             raise ValueError("Only refinement is supported")
 
         conflict_vars = list_intersection(vars_to_elim, term.vars)
-        if len(conflict_vars) > 1:
+        if len(conflict_vars) != 1:
             raise ValueError("Tactic 4 unsuccessful")
 
         var_to_elim = conflict_vars[0]
